@@ -211,7 +211,8 @@ def replay (j : Json) : R Verdict := do
           -- property: some minimum record carries the file's content
           let minObj := b.obj
           if rows.any (fun (_, _, o, inp2, _) => o == minObj && inp2 == file) then dis := some "best-seen file holds a minimum record other than the first one"
-          else pf := ("C14", "best-seen file does not hold the parameter set of a minimum-objective record") :: pf
+          else pf := ("C14", "best-seen file does not hold the parameter set of a minimum-objective record") ::
+                     ("C16", s!"the best-seen file written to the output directory does not hold the parameter set of a minimum-objective record: {file.take 120}") :: pf
       | none => pure ()
       match (fieldD (fieldD der "summary") "best").getInt?.toOption, optVal opts "--sample-size" with
       | some sb, none => if some sb != b.obj then pf := ("C14", "objective of the best-seen file's record differs from the final report's") :: pf
